@@ -434,3 +434,18 @@ def search(ctx, hints):
             M = np.asarray(G.gellmann_basis_to_matrix(x))
             if np.abs(np.einsum('a,aij->ij', x, B) - M).max() > 1e-10 * max(1, np.abs(x).max()) * d:
                 ctx.fail('synthesis=sum', f'gellmann_basis_to_matrix(v) != sum_a v_a G_a for d={d}', dict(fn='gellmann_basis_to_matrix', d=d, vec=[str(z) for z in x]))
+
+
+def replay(ctx, payload):
+    """re-run the probe with the seed/tier recorded in the replay file and report whether the recorded key fails again"""
+    c2 = common.Ctx(ctx.pid, payload.get('tier', 'quick'), int(payload.get('seed', 0)))
+    probe(c2)
+    hit = [f for f in c2.failures if f['key'] == payload.get('key')]
+    if hit:
+        print(f"replay: {payload.get('key')} still fails: {hit[0]['what']}")
+        import sys
+        path = sys.argv[sys.argv.index('--replay') + 1] if '--replay' in sys.argv else ''
+        print(f'VIOLATION property={ctx.pid} replay={path}')
+        return 1
+    print(f"replay: {payload.get('key')} no longer fails ({c2.probe_evals} probe evaluations)")
+    return 0
